@@ -132,6 +132,12 @@ void vsim_arm(int ctl_fd, const char *pfx, long long clock_ns)
 }
 
 void vsim_disarm(void) { armed = 0; }
+
+/* explicit synchronisation point: park the node so that the simulator can inspect the tree */
+void vsim_sync(const char *tag)
+{
+	if (armed) park("sync", tag, NULL, 0, 0, 0, NULL);
+}
 int vsim_is_loaded(void) { return 1; }
 
 /* ---- open family ---- */
